@@ -304,6 +304,27 @@ def d6_misc(ctx, m):
     ctx.check(rule, 'dobs#ne-check', ok, 'number of ensembles is cross-checked', 'ne check missing')
 
 
+def d7_samples(ctx, m):
+    from .. import samplerule
+    n = samplerule.check(ctx, 'C12-D7', m)
+    ctx.floor('sample reconstructions in the XML writers', n, 1)
+    # orientation of the gradient table: the writer stores (component, observable); the reader indexes gradd[name][observable]
+    rd = m.func('import_dobs_string')
+    asg = [s_ for s_ in statements(rd) if isinstance(s_, ast.Assign) and unparse(s_.targets[0]) == 'gradd[cname]']
+    for s_ in asg:
+        v = unparse(s_.value)
+        g = [(unparse(t), pol) for t, pol in guards_of(m, s_, stop=rd) if 'grad' in unparse(t)]
+        key = 'input/dobs.py:import_dobs_string#gradd=%s' % v
+        if v == 'grad.T':
+            ctx.holds('C12-D7', key, 'gradient table transposed to (observable, component)', m.loc(s_))
+        elif v.startswith('[grad for'):
+            ctx.check('C12-D7', key, g == [('grad.shape[1] == 1', True)], 'a single column is shared by all observables', 'column replication under %s' % g, m.loc(s_))
+        elif v == 'grad':
+            ctx.violated('C12-D7', key, 'the gradient table is used untransposed (under %s) although it is written as (component, observable): observable k receives row k instead of column k' % g, m.loc(s_))
+        else:
+            ctx.unrec('C12-D7', key, 'unknown gradient handling', m.loc(s_))
+
+
 def run(ctx):
     ctx.rule('C12-D1', 'positional tag agreement writer/reader')
     ctx.rule('C12-D2', 'offset encoding inverted; row layout vs stride')
@@ -319,6 +340,8 @@ def run(ctx):
     ctx.guarded('C12-D4', 'dobs@separator', d4_separator, ctx, m)
     ctx.guarded('C12-D5', 'dobs@formats', d5_formats, ctx, m)
     ctx.guarded('C12-D6', 'dobs@misc', d6_misc, ctx, m)
+    ctx.rule('C12-D7', 'sample reconstruction (delta + own replica mean); gradient table orientation')
+    ctx.guarded('C12-D7', 'dobs@samples', d7_samples, ctx, m)
 
 
 SELFTEST = [
@@ -335,5 +358,7 @@ SELFTEST = [
     ('true-mode-broken', 'pyerrors/input/dobs.py', "                elif separator_insertion is True:\n                    if rname.startswith(ename):", "                elif separator_insertion == 1.5:\n                    if rname.startswith(ename):", 'C12-D4'),
     ('cdata-order', 'pyerrors/input/dobs.py', "            cd['array'] = [covd, gradd]", "            cd['array'] = [gradd, covd]", 'C12-D1'),
     ('pobs-full-sample', 'pyerrors/input/dobs.py', "num = o.deltas[names[r]][c] + o.r_values[names[r]]", "num = o.deltas[names[r]][c]", 'C12-D2'),
+    ('pobs-global-mean', 'pyerrors/input/dobs.py', "num = o.deltas[names[r]][c] + o.r_values[names[r]]", "num = o.deltas[names[r]][c] + o.value", 'C12-D7'),
+    ('grad-orientation-by-shape', 'pyerrors/input/dobs.py', "            if grad.shape[1] == 1:\n                gradd[cname] = [grad for i in range(len(mean))]", "            if grad.shape[0] == len(mean):\n                gradd[cname] = grad", 'C12-D7'),
     ('benign-separator-style', 'pyerrors/input/dobs.py', "if separator_insertion is None or separator_insertion is False:", "if separator_insertion in [None, False]:", 'BENIGN'),
 ]
